@@ -21,7 +21,7 @@ from .internal_utils.joins import (
 )
 from .schema_utils import get_schema_from_cols, infer_schema_from_rdd, merge_schemas
 from .types import create_row, DataType, LongType, Row, row_from_keyed_values, StringType, StructField, StructType
-from .utils import IllegalArgumentException
+from .utils import AnalysisException, IllegalArgumentException
 
 
 def _generate_show_layout(char: str, fields):
@@ -931,7 +931,8 @@ class DataFrameInternal:
                 col = parse(col)
             try:
                 positions_to_drop.append(col.find_position_in_schema(self.bound_schema))
-            except ValueError:
+            except (ValueError, AnalysisException):
+                # dropping a column that does not exist is a no-op
                 pass
 
         new_schema = StructType([
